@@ -210,15 +210,31 @@ fn one<T: Flt>(acc: &mut Acc, cfg: &Cfg, pre: Option<f64>, mode: u8, n0: usize, 
 /// The README recipe, literally: process full chunks, one partial chunk, flush with None until
 /// new_length + delay frames exist, skip `delay`, keep `new_length`.
 fn recipe(acc: &mut Acc, cfg: &Cfg, pre: Option<f64>) -> Result<(), String> {
+    recipe_v(acc, cfg, pre, false)?;
+    recipe_v(acc, cfg, pre, true)
+}
+
+/// `late_masked`: the event lies in the last, partial chunk of the clip, and the clip is channel 1
+/// of a two-channel resampler whose channel 0 is masked out and supplied with empty slices.
+fn recipe_v(acc: &mut Acc, cfg: &Cfg, pre: Option<f64>, late_masked: bool) -> Result<(), String> {
     let r = cfg.nominal_ratio() * pre.unwrap_or(1.0);
     let len = 3000usize.max((40.0 / r) as usize);
     let sigma = 6.0 * (1.0f64).max(1.0 / r);
-    let n0 = len / 2;
+    let n0 = if late_masked { len - (5.0 * sigma) as usize - 2 } else { len / 2 };
     let clip: Vec<f64> = (0..len).map(|n| (-0.5 * ((n as f64 - n0 as f64) / sigma).powi(2)).exp()).collect();
-    let mut rs = cfg.build::<f64>()?;
+    let mut cfg2 = cfg.clone();
+    if late_masked {
+        cfg2.channels = 2;
+    }
+    let what = if late_masked { "README recipe, event in the final partial chunk, channel 0 masked out and empty" } else { "README recipe" };
+    let mut rs = cfg2.build::<f64>()?;
     if let Some(rel) = pre {
         rs.set_resample_ratio_relative(rel, false).map_err(|e| e.to_string())?;
     }
+    let ch = cfg2.channels - 1;
+    let mask_v = [false, true];
+    let mask: Option<&[bool]> = if late_masked { Some(&mask_v) } else { None };
+    let empty: [f64; 0] = [];
     let delay = rs.output_delay();
     let new_length = (len as f64 * r) as usize;
     let mut out: Vec<f64> = Vec::new();
@@ -229,23 +245,33 @@ fn recipe(acc: &mut Acc, cfg: &Cfg, pre: Option<f64>) -> Result<(), String> {
         if pos + need > len {
             break;
         }
-        let (i, o) = rs.process_into_buffer(&[&clip[pos..pos + need]], &mut obuf, None).map_err(|e| e.to_string())?;
-        out.extend_from_slice(&obuf[0][..o]);
+        let (i, o) = if late_masked {
+            rs.process_into_buffer(&[&empty[..], &clip[pos..pos + need]], &mut obuf, mask)
+        } else {
+            rs.process_into_buffer(&[&clip[pos..pos + need]], &mut obuf, mask)
+        }
+        .map_err(|e| e.to_string())?;
+        out.extend_from_slice(&obuf[ch][..o]);
         pos += i;
     }
     if pos < len {
-        let (_, o) = rs.process_partial_into_buffer(Some(&[&clip[pos..]]), &mut obuf, None).map_err(|e| e.to_string())?;
-        out.extend_from_slice(&obuf[0][..o]);
+        let (_, o) = if late_masked {
+            rs.process_partial_into_buffer(Some(&[&empty[..], &clip[pos..]]), &mut obuf, mask)
+        } else {
+            rs.process_partial_into_buffer(Some(&[&clip[pos..]]), &mut obuf, mask)
+        }
+        .map_err(|e| e.to_string())?;
+        out.extend_from_slice(&obuf[ch][..o]);
     }
     let mut guard = 0;
     while out.len() < new_length + delay && guard < 10000 {
-        let (_, o) = rs.process_partial_into_buffer(None::<&[Vec<f64>]>, &mut obuf, None).map_err(|e| e.to_string())?;
-        out.extend_from_slice(&obuf[0][..o]);
+        let (_, o) = rs.process_partial_into_buffer(None::<&[Vec<f64>]>, &mut obuf, mask).map_err(|e| e.to_string())?;
+        out.extend_from_slice(&obuf[ch][..o]);
         guard += 1;
     }
     acc.evals += 1;
     if out.len() < new_length + delay {
-        acc.found.push(json!({"prop": "C14", "sig": "recipe-too-short", "detail": format!("flushing never produced new_length + delay = {} frames", new_length + delay), "cfg": cfg.to_json(), "history": "", "point": "README recipe"}));
+        acc.found.push(json!({"prop": "C14", "sig": "recipe-too-short", "detail": format!("flushing never produced new_length + delay = {} frames", new_length + delay), "cfg": cfg.to_json(), "history": "", "point": what}));
         return Ok(());
     }
     let kept = &out[delay..delay + new_length];
@@ -254,7 +280,7 @@ fn recipe(acc: &mut Acc, cfg: &Cfg, pre: Option<f64>) -> Result<(), String> {
         m0 += y * y;
         m1 += y * y * k as f64;
     }
-    let centroid = if m0 > 0.0 { m1 / m0 } else { -1.0 };
+    let centroid = if m0 > 1e-6 { m1 / m0 } else { -1.0 };
     let expect = n0 as f64 * r;
     let tol = r.max(1.0) + 1.0;
     acc.nontrivial += 1;
@@ -262,8 +288,8 @@ fn recipe(acc: &mut Acc, cfg: &Cfg, pre: Option<f64>) -> Result<(), String> {
     if !((centroid - expect).abs() <= tol) {
         acc.found.push(json!({
             "prop": "C14", "sig": "recipe-clip-shifted",
-            "detail": format!("README recipe (skip output_delay() = {} frames, keep {}): the event of input frame {} is centred at kept frame {:.2}, expected {:.2} (tolerance {:.2})", delay, new_length, n0, centroid, expect, tol),
-            "cfg": cfg.to_json(), "history": "", "point": "README recipe",
+            "detail": format!("{} (skip output_delay() = {} frames, keep {}): the event of input frame {} is centred at kept frame {:.2}{}, expected {:.2} (tolerance {:.2})", what, delay, new_length, n0, centroid, if centroid < 0.0 { " (missing)" } else { "" }, expect, tol),
+            "cfg": cfg.to_json(), "history": "", "point": what,
         }));
     }
     Ok(())
